@@ -23,6 +23,7 @@ Proof. induction l; cbn; auto. Qed.
 Lemma ek_plan_create cf st ts sug add : forallb ek (fst (plan_create cf st ts sug add)) = true.
 Proof.
   unfold plan_create. destruct sug as [s|]; [|reflexivity]. destruct (s_is (s_st s) SFailed); [reflexivity|].
+  destruct (s_is (s_st s) SSucceeded && _); [cbn [fst]; destruct (s_restarting (s_st s)); reflexivity|].
   cbn [fst]. rewrite forallb_app, ek_creates. destruct (s_requests s =? _); reflexivity.
 Qed.
 
